@@ -24,6 +24,18 @@ function p.req(frame)
   table.sort(ks)
   return "GOT:" .. table.concat(ks, ","):sub(1, 120)
 end
+function p.callglobal(frame)
+  local fname, name = frame.args[1], frame.args[2]
+  local f = _G[fname]
+  if type(f) ~= "function" then return "NOFN" end
+  local ok, m = pcall(f, name)
+  if not ok or m == nil then return "DENIED" end
+  if type(m) ~= "table" then return "GOT:" .. type(m) end
+  local ks = {}
+  for k, _ in pairs(m) do ks[#ks + 1] = tostring(k) end
+  table.sort(ks)
+  return "GOT:" .. table.concat(ks, ","):sub(1, 120)
+end
 function p.helper(frame)
   local out = {}
   for k, v in pairs(_G) do
@@ -90,6 +102,14 @@ def replay_attr_filter(name, on_partial, setting, as_bytes):
     return "\n".join(out)
 
 
+def lua_functions(src: str):
+    """top-level Lua functions of the sandbox file: name -> body text (the file defines them at column 0, closed by `end` at column 0)"""
+    out = {}
+    for m in re.finditer(r"^(?:local\s+)?function\s+([A-Za-z_][A-Za-z0-9_]*)\s*\(([^)]*)\)(.*?)^end\b", src, flags=re.S | re.M):
+        out[m.group(1)] = m.group(3)
+    return out
+
+
 def lua_table_keys(src: str, name: str):
     """keys of `local <name> = { k = true, ... }` plus `<name>["k"] = true` assignments (enough for the two tables used)"""
     keys = set()
@@ -111,7 +131,14 @@ def runtime_facts(rep: C.Report) -> None:
         src = open(os.path.join(C.SRC, "lua", "_sandbox_phase1.lua")).read()
         retained = lua_table_keys(src, "retained_modules")
         blocked = lua_table_keys(src, "host_only_modules") or set()
-        uses_block = bool(re.search(r"function _cached_mod\(modname\)\s*if host_only_modules\[modname\]", src))
+        fns = lua_functions(src)
+        exported = set(re.findall(r'env\["([A-Za-z_][A-Za-z0-9_]*)"\]\s*=\s*([A-Za-z_][A-Za-z0-9_]*)', src))
+        exported_fn = {g: f for g, f in exported if f in fns}
+        # functions that hand out entries of the host's package.loaded, and whether they consult the block list first
+        readers = {f: body for f, body in fns.items() if re.search(r"return\s+_orig_package\.loaded\[|return\s+package\.loaded\[", body)}
+        unguarded = sorted(f for f, body in readers.items() if not re.search(r"host_only_modules\[", body.split("return")[0]))
+        reachable_unguarded = sorted(g for g, f in exported_fn.items() if f in unguarded)
+        uses_block = bool(readers) and not unguarded
         if retained is None:
             ob.verdict, ob.detail = C.NOT_ENCODABLE, "retained_modules table not found"
         else:
@@ -135,9 +162,15 @@ def runtime_facts(rep: C.Report) -> None:
             elif r == "sat":
                 wit = s.model()[name].as_string()
                 got = invoke_probe("req", wit)
-                ob.samples.append({"z3_witness": wit, "replay": got})
+                for g in reachable_unguarded:  # a reader exported into the sandbox environment can be called directly
+                    if got.startswith("GOT:"):
+                        break
+                    got = invoke_probe("callglobal", g + "|" + wit)
+                    if got.startswith("GOT:"):
+                        wit = f"{g}({wit!r})"
+                ob.samples.append({"z3_witness": wit, "replay": got, "unguarded_readers_of_package.loaded": unguarded, "exported_into_env": reachable_unguarded})
                 if got.startswith("GOT:"):
-                    v = rep.violation(f"Lua require({wit!r}) inside #invoke", f"sandboxed code obtains the host library: {got[:100]}", {"require": wit})
+                    v = rep.violation(f"Lua {wit if '(' in wit else 'require(' + repr(wit) + ')'} inside #invoke", f"sandboxed code obtains the host library: {got[:100]}", {"require": wit})
                     ob.verdict = C.VIOLATED if v.known is None else C.KNOWN
                     ob.confirmed_conditions = 1
                 else:
